@@ -9,6 +9,7 @@
 (*   rbbig / bstbig : n ascending inserts, erase every other key, walk,    *)
 (*                    clear                                                 *)
 (*   mapbig : n inserts, duplicate inserts, find, erase, clear, reuse      *)
+(*   hashbig : n inserts while the table doubles, find, walk, erase, shrink *)
 (***************************************************************************)
 EXTENDS Naturals, Integers, Sequences, FiniteSets, TLC, Json, IOUtils
 Recs == ndJsonDeserialize(IOEnv.TRACE)
@@ -64,11 +65,25 @@ MapOK(r) ==
     /\ r.erased > 0 /\ r.size3 = r.n - r.erased                 \* reused, some entries erased
     /\ r.cleared = r.size3 /\ r.once /\ r.size4 = 0
 
+\* C03 / C04 / C19 on a table grown by doubling through 13 and more incremental rehashes: everything inserted is
+\* found, nothing else, each walk and the final clear see every live element exactly once, erased elements are
+\* gone, every rehash is worked off within as many keyed operations as there were buckets (overdue = 0) and no
+\* single operation relocates more than three buckets (<= 2 elements each here, plus the lookup's own two calls)
+HashOK(r) ==
+    /\ r.out = "ok" /\ r.priv /\ r.hbad = 0
+    /\ r.size = r.n /\ r.found = r.n /\ r.absent /\ r.resizes > 0
+    /\ r.overdue = 0 /\ r.maxcalls <= 8
+    /\ r.visited1 = r.n /\ r.once1
+    /\ r.erased = r.n \div 2 /\ r.size2 = r.n - r.erased /\ r.gonefound = 0
+    /\ r.visited = r.size2 /\ r.once
+    /\ r.cleared = r.size2 /\ r.clronce /\ r.size3 = 0 /\ r.size4 = 5
+
 BigOK(r) == CASE r.op = "heapdrain" -> HeapOK(r)
               [] r.op \in {"slistsort", "dlistsort"} -> ListOK(r)
               [] r.op = "rbbig" -> TreeOK(r, TRUE)
               [] r.op = "bstbig" -> TreeOK(r, FALSE)
               [] r.op = "mapbig" -> MapOK(r)
+              [] r.op = "hashbig" -> HashOK(r)
               [] OTHER -> FALSE
 VARIABLE i
 TInit == i = 1
